@@ -24,3 +24,23 @@ theorem fillFrom_skip (buf : Bytes) (n k : Nat) (ps : List Piece) :
 theorem fillFrom_nil (buf : Bytes) (n : Nat) : fillFrom buf n [] = .ok buf := rfl
 
 end OFV.Go
+
+namespace OFV.Go
+open OFV
+
+theorem Res.bind_ok_right {α} (x : Res α) : (x >>= fun b => Res.ok b) = x := by
+  cases x <;> rfl
+
+theorem Res.bind_assoc' {α β γ} (x : Res α) (f : α → Res β) (g : β → Res γ) :
+    ((x >>= f) >>= g) = x >>= fun a => f a >>= g := by
+  cases x <;> rfl
+
+theorem be16_len (x : UInt16) : (be16 x).length = 2 := rfl
+theorem be32_len (x : UInt32) : (be32 x).length = 4 := rfl
+theorem be64_len (x : UInt64) : (be64 x).length = 8 := rfl
+
+/-- `b := make([]byte, n); copy(b, src)` -/
+theorem Buf.copy_zeros_zero (n : Nat) (b : Bytes) : Buf.copy (zeros n) 0 b = .ok (overwrite (zeros n) 0 b) := by
+  simp [Buf.copy]
+
+end OFV.Go
